@@ -2096,3 +2096,20 @@ Proof. reflexivity. Qed.
 Theorem other_sep_irrelevant sep s s' t1 t2 od al :
   get_tree_diff_seps sep s t1 t2 od al = get_tree_diff_seps sep s' t1 t2 od al.
 Proof. rewrite !get_tree_diff_seps_eq. reflexivity. Qed.
+
+(* for Node (and subclasses) the class-aware entry point is the same function; for BinaryNode it differs
+   only by the TreeError of a third child *)
+Lemma get_tree_diff_cls_node sep sep2 t1 t2 od al :
+  get_tree_diff_cls false sep sep2 t1 t2 od al = get_tree_diff sep t1 t2 od al.
+Proof.
+  unfold get_tree_diff_cls. rewrite get_tree_diff_seps_eq.
+  destruct (get_tree_diff sep t1 t2 od al) as [[l|]|e]; reflexivity.
+Qed.
+
+Lemma get_tree_diff_cls_binary sep sep2 t1 t2 od al l :
+  get_tree_diff_cls true sep sep2 t1 t2 od al = Ret (Some l) -> get_tree_diff sep t1 t2 od al = Ret (Some l).
+Proof.
+  unfold get_tree_diff_cls. rewrite get_tree_diff_seps_eq.
+  destruct (get_tree_diff sep t1 t2 od al) as [[l'|]|e]; try discriminate.
+  cbn [andb]. destruct (binary_overflow l'); [discriminate|]. intros H. exact H.
+Qed.
